@@ -70,6 +70,9 @@ def programs(tier, seed):
                          nd("CreateVector", [4, 5, 6], t=t3), nd("VectorToArray", [7]), nd("Get", [8], index=ix)]), [t3, t3, t3]))
     m22 = A("i64", [2, 2])
     ps.append(("matmul_i64", prog([inp(m22), inp(m22), nd("Matmul", [1, 2])]), [m22, m22]))
+    ps.append(("gemm_nt_i64", prog([inp(A("i64", [2, 3])), inp(A("i64", [2, 3])), nd("Gemm", [1, 2], ta=False, tb=True)]), [A("i64", [2, 3]), A("i64", [2, 3])]))
+    ps.append(("gemm_tn_u64_then_mul", prog([inp(A("u64", [2, 2])), inp(A("u64", [2, 2])), nd("Gemm", [1, 2], ta=True, tb=False), nd("Multiply", [3, 1])]), [A("u64", [2, 2]), A("u64", [2, 2])]))
+    ps.append(("dot_i32", prog([inp(A("i32", [3])), inp(A("i32", [3])), nd("Dot", [1, 2])]), [A("i32", [3]), A("i32", [3])]))
     ps.append(("mixmul_i64", prog([inp(A("i64", [3])), inp(A("b", [3])), nd("MixedMultiply", [1, 2])]), [A("i64", [3]), A("b", [3])]))
     ps.append(("a2b_u64", prog([inp(A("u64", [2])), inp(A("u64", [2])), nd("Add", [1, 2]), nd("A2B", [3])]), [A("u64", [2]), A("u64", [2])]))
     ps.append(("b2a_i32", prog([inp(A("b", [2, 32])), inp(A("b", [2, 32])), nd("Add", [1, 2]), nd("B2A", [3], st="i32")]), [A("b", [2, 32]), A("b", [2, 32])]))
@@ -161,6 +164,11 @@ def jobs(tier, seed):
                 vals[1] = [v if int(v) != 0 else "3" for v in vals[1]]      # the property speaks of non-zero divisors
             js.append({"id": jid, "name": name, "family": "core", "prog": p, "owners": ow, "outs": outs, "mode": ["Simple", "Default", "Extreme"][oi % 3],
                        "inputs": vals, "seeds": [seed % 1000 + s for s in range(nseeds)], "junk": junk})
+        # all inputs public, result returned in shared form / revealed to one party
+        for outs in ([], [1]):
+            jid += 1
+            js.append({"id": jid, "name": name, "family": "core", "prog": p, "owners": ["pub"] * len(its), "outs": outs, "mode": "Simple",
+                       "inputs": vals, "seeds": [seed % 1000], "junk": junk[:1]})
     for name, p, its in iterate_programs():
         for oi, (ow, outs) in enumerate((([0, 1], [2]), ([1, 2], []), (["pub", 0], [0, 1]))):
             for mode in ("Simple", "Default", "Extreme"):
@@ -189,9 +197,9 @@ def jobs(tier, seed):
     nrand = 150 if tier == "quick" else 2500
     for name, p, its in randprog.programs(seed, nrand):
         ow = [rng.choice([0, 1, 2, 0, 1, 2, "pub", "sh"]) for _ in its]
-        if all(o == "pub" for o in ow):
-            ow[0] = 1
         outs = rng.choice([[0], [1], [2], [2, 0], [0, 1], [1, 2, 0], []])
+        if all(o == "pub" for o in ow) and jid % 3:
+            ow[0] = 1       # (one in three all-public programs is kept: public results, revealed or returned in shared form)
         jid += 1
         js.append({"id": jid, "name": name, "family": "rand", "prog": p, "owners": ow, "outs": outs, "mode": rng.choice(["Simple", "Default", "Extreme"]),
                    "inputs": [rand_value(t, rng) for t in its], "seeds": [seed % 1000 + jid % 7], "junk": ["random"]})
